@@ -73,6 +73,10 @@ FIXED += [
     ("C13", "bd2b19a", "a signed day offset of four or more digits (`modified gte -1000`) went to the English date parser and silently meant something else (all entries / none) (audit agents; C13 now draws offsets up to five digits)", []),
     ("C13", "5d63b84", "every date literal of a day whose local midnight is ambiguous (America/Havana falling back from 01:00 to 00:00) was rejected: Can't parse datetime (audit agents; Havana is now one of C13's time zones)", []),
     ("C14", "ffddbb4", "`size = 2.01kb` compared with 2009 bytes: the product 2.01 * 1000.0 = 2009.9999999999998 was cut to an integer (audit agent; C14's literal oracle now uses exact rationals and such fractions)", []),
+    ("C20", "9f3530e", "gitignore with the search root ABOVE a repository (`from ~/projects gitignore`) and the default bfs traversal: rules applied to the first level of the repository only (Repository::open on a queued sub-directory fails); dfs was right (audit agent; C20 now has root-above-repository cases)", []),
+    ("C20", "0a88cff", "hg / docker pattern lists accumulated from one search root to the next: a root nested in another context was also judged by the outer context's file, depending on root order (audit agent; C20's several-roots cases now nest contexts)", []),
+    ("C20", "643caf9", "hgignore glob `build/` (trailing slash) ignored nothing (audit agent; `dir/` patterns are now generated for hg too)", []),
+    ("C20", "7d874b3", "dockerignore turned every backslash of a path into a slash on Unix: pattern `x` ignored `x\\y.txt`, and below a directory with a backslash in its name no rule applied (audit agent; backslash names are in C20's vocabulary)", []),
     ("C10", "9b6a0a7", "day('2020-0\u0661-01'): the date pattern matched non-ASCII digits and the integer parse of the capture was unwrapped (found by the eval_total fuzz target after 2e7 executions)", ["date-non-ascii-digit"]),
     ("C10", "69a0b27", "`name from './[a' depth 1 rx`: a malformed pattern in a regexp search root panicked (unwrap of Regex::new)", ["regexp-root-malformed"]),
 ]
